@@ -315,8 +315,10 @@ def write_replay(pid, name, payload):
 
 
 def write_evidence(pid, ev):
-    os.makedirs(os.path.join(ROOT, "evidence"), exist_ok=True)
-    with open(os.path.join(ROOT, "evidence", pid + ".json"), "w") as f:
+    # evidence/ describes /repo itself; a run against another tree (VERIF_REPO, mutation self-test) writes elsewhere
+    d = os.path.join(ROOT, "evidence") if os.path.realpath(REPO) == "/repo" else os.path.join(ROOT, ".work", "evidence-other-tree")
+    os.makedirs(d, exist_ok=True)
+    with open(os.path.join(d, pid + ".json"), "w") as f:
         json.dump(ev, f, indent=1, sort_keys=True, default=str)
 
 
